@@ -131,6 +131,20 @@ def gen_cases(ctx):
          "settings": {}, "how": "to_string", "max_rows": 2, "max_width": None, "truncate_width": None, "ctrl": False},
         {"op": "frame", "n": 0, "cols": [], "settings": {}, "how": "str", "max_rows": None, "max_width": None, "truncate_width": None, "ctrl": False},
     ]
+    # every entry point under every run-time setting that BITES (more rows / a wider cell / a wider table than the setting
+    # allows), with no explicit argument: the setting in force at the time of the call decides
+    for how in ("to_string", "str", "repr", "print_"):
+        for settings in ({"PRINT_MAX_ROWS": 2}, {"PRINT_MAX_ROWS": 3, "PRINT_TRUNCATE_WIDTH": 4}, {"PRINT_TRUNCATE_WIDTH": 3}, {"PRINT_MAX_WIDTH": 12},
+                         {"PRINT_MAX_ROWS": 1, "PRINT_MAX_WIDTH": 20, "PRINT_TRUNCATE_WIDTH": 5}):
+            for geo in (False, True):
+                case = {"op": "frame", "n": 6, "cols": [{"name": "name", "kind": "str", "vals": ["alpha-beta-gamma", "b", "中文中文中文", "d", "", "f f f f f f"]},
+                                                       {"name": "v", "kind": "int", "vals": [1, 22, 333, 4444, 55555, 666666]},
+                                                       {"name": "w", "kind": "float", "vals": [0.5, 1.25, "nan", 2.0, 3.0, 4.0]}],
+                        "settings": dict(settings), "how": how, "max_rows": None, "max_width": None, "truncate_width": None, "ctrl": False}
+                if geo:
+                    case["geo"] = [GEOMS[1], None, GEOMS[2], GEOMS[1], None, GEOMS[1]]
+                    case["geo_pos"] = 1
+                cases.append(case)
     n = 500 if ctx.tier == "quick" else 10000
     for i in range(n):
         cases.append(gen_case(rng, ctx.tier, ctrl=(i % 10 == 9)))
